@@ -3,7 +3,7 @@
 //!
 //! Depends on `std` only so it can be `#[path]`-included into the daemon crate
 //! as well as used from the external `rbgp-verif` crate.
-#![allow(dead_code)]
+#![allow(dead_code, unreachable_pub)]
 
 use std::collections::{BTreeMap, BTreeSet};
 use std::fmt::Write as _;
